@@ -1,7 +1,7 @@
 (* C10 — Bug.Compile against the model, and the documented interpretation as a checker. *)
 From Coq Require Import List Arith NArith Bool.
 Import ListNotations.
-From GB Require Export Snap.
+From GB Require Export Snap SnapSpec.
 Local Open Scope N_scope.
 
 Record obs10 := mkobs10 {
@@ -21,11 +21,6 @@ Definition comment_eqb (a b : comment) :=
   nl_eqb (c_files a) (c_files b) && Nat.eqb (c_edits a) (c_edits b).
 Definition kv_eqb (a b : N * N) := N.eqb (fst a) (fst b) && N.eqb (snd a) (snd b).
 
-Fixpoint kv_insert (p : N * N) (l : list (N * N)) : list (N * N) :=
-  match l with [] => [p] | q :: t => if N.leb (fst p) (fst q) then p :: l else q :: kv_insert p t end.
-Definition kv_sort (l : list (N * N)) := fold_right kv_insert [] l.
-
-Definition titem_view (t : titem) : bool * N := match t with TComment i => (true, fst i) | TOther i => (false, fst i) end.
 Definition bn_eqb (a b : bool * N) := Bool.eqb (fst a) (fst b) && N.eqb (snd a) (snd b).
 
 Definition snap_matches (s : snapshot) (o : obs10) : bool :=
@@ -39,72 +34,8 @@ Definition snap_matches (s : snapshot) (o : obs10) : bool :=
 
 Definition agrees (c : case) : bool := snap_matches (compile (k_ops c)) (k_obs c).
 
-(* ---- the documented interpretation, written independently of [apply] ---- *)
-
-Definition is_first_create (first : opid) (o : op) : bool :=
-  match o with OCreate i _ _ _ _ => id_eqb i first | _ => false end.
-
-(* title / status: the last change, or creation *)
-Definition spec_title (first : opid) (ops : list op) : N :=
-  fold_left (fun t o => match o with
-                        | OCreate i _ title _ _ => if id_eqb i first then title else t
-                        | OSetTitle _ _ title => title | _ => t end) ops 0.
-Definition spec_status (ops : list op) : N :=
-  fold_left (fun s o => match o with OSetStatus _ _ st => st | _ => s end) ops 1.
-
-(* labels: (S ∪ added) ∖ removed per change, in order; result sorted and duplicate free *)
-Definition set_add (a : N) (l : list N) := if existsb (N.eqb a) l then l else a :: l.
-Definition spec_labels (ops : list op) : list N :=
-  sortN (fold_left (fun S o => match o with
-                    | OLabelChange _ _ added removed =>
-                        filter (fun x => negb (existsb (N.eqb x) removed)) (fold_left (fun S a => set_add a S) added S)
-                    | _ => S end) ops []).
-
-(* comments: one per (first) create / add-comment; text and files of the latest edit whose target IS that
-   operation's id (full id); an edit whose target is the id of no comment-creating operation changes nothing *)
-Definition spec_comments (first : opid) (ops : list op) : list comment :=
-  fold_left (fun cs o => match o with
-    | OCreate i au _ msg files => if id_eqb i first then [{| c_id := i; c_author := au; c_msg := msg; c_files := files; c_edits := 0 |}] else cs
-    | OAddComment i au msg files => cs ++ [{| c_id := i; c_author := au; c_msg := msg; c_files := files; c_edits := 0 |}]
-    | OEditComment _ _ t msg files =>
-        map (fun c => if id_eqb (c_id c) t
-                      then {| c_id := c_id c; c_author := c_author c; c_msg := msg; c_files := files; c_edits := S (c_edits c) |} else c) cs
-    | _ => cs end) ops [].
-
-(* actors: authors of the operations that took effect, each once, in order of first appearance; participants: of
-   create / add-comment.  An edit whose target is not a comment takes no effect. *)
-Definition add_once' (a : N) (l : list N) : list N := if existsb (N.eqb a) l then l else l ++ [a].
-Definition spec_actors_parts (first : opid) (ops : list op) : list N * list N :=
-  let '(_, acts, parts) :=
-    fold_left (fun st o =>
-      let '(cids, acts, parts) := st in
-      match o with
-      | OCreate i au _ _ _ => if id_eqb i first then ([i], add_once' au acts, add_once' au parts) else st
-      | OAddComment i au _ _ => (cids ++ [i], add_once' au acts, add_once' au parts)
-      | OEditComment _ au t _ _ => if existsb (fun c => id_eqb c t) cids then (cids, add_once' au acts, parts) else st
-      | OSetTitle _ au _ | OSetStatus _ au _ | OLabelChange _ au _ _ => (cids, add_once' au acts, parts)
-      | _ => st
-      end) ops ([], [], []) in (acts, parts).
-
-(* timeline: one entry per state-changing operation *)
-Definition spec_timeline (first : opid) (ops : list op) : list (bool * N) :=
-  flat_map (fun o => match o with
-    | OCreate i _ _ _ _ => if id_eqb i first then [(true, fst i)] else []
-    | OAddComment i _ _ _ => [(true, fst i)]
-    | OSetTitle i _ _ | OSetStatus i _ _ | OLabelChange i _ _ _ => [(false, fst i)]
-    | _ => [] end) ops.
-
-(* metadata attached later never overrides an existing key: the first value set for a key stays *)
-Definition spec_meta_of (target : opid) (later : list op) : list (N * N) :=
-  kv_sort (fold_left (fun m o => match o with
-     | OSetMetadata _ _ t kv => if id_eqb t target
-          then fold_left (fun m p => if existsb (fun q => N.eqb (fst q) (fst p)) m then m else m ++ [p]) kv m else m
-     | _ => m end) later []).
-(* only the first operation carrying that id is targeted: ids are unique in a valid bug *)
-Fixpoint spec_meta (ops : list op) : list (list (N * N)) :=
-  match ops with [] => [] | o :: t => spec_meta_of (op_id o) t :: spec_meta t end.
-
-Fixpoint nodupb (l : list N) : bool := match l with [] => true | x :: t => negb (existsb (N.eqb x) t) && nodupb t end.
+(* the documented interpretation (spec_title, spec_status, spec_labels, spec_comments, spec_actors_parts,
+   spec_timeline, spec_meta), kv_sort, titem_view and nodupb live in SnapSpec.v (re-exported here) *)
 Fixpoint strictly_sorted (l : list N) : bool :=
   match l with a :: ((b :: _) as t) => N.ltb a b && strictly_sorted t | _ => true end.
 
